@@ -23,7 +23,7 @@ PROFILES = {
     "virt3":    dict(N=3, L=2, cap=2, head=1, manual=0, pay=0, ctx=0, feat="PG", inj=(1, 1, 2, 0), virt=1),       # injected callbacks declared virtual, overridden by the states
     "sparse5":  dict(N=5, L=2, cap=0, head=1, manual=0, pay=1, ctx=1, feat="PSHG", defmode=1, dev=1, cfgorder=3),
     "one1v":    dict(N=1, L=2, cap=0, head=1, manual=1, pay=3, ctx=0, feat="PSHGV", defmode=2),
-    "big9":     dict(N=9, L=7, cap=3, head=1, manual=0, pay=3, ctx=1, feat="PSHG", cfgorder=2),
+    "big9":     dict(N=9, L=7, cap=3, head=1, manual=0, pay=7, ctx=1, feat="PSHG", cfgorder=2),
     "man3":     dict(N=3, L=2, cap=2, head=1, manual=1, pay=0, ctx=0, feat="PSHG"),
     "nolog3":   dict(N=3, L=2, cap=2, head=1, manual=1, pay=0, ctx=0, feat="PSH", cfgorder=1, script_seed="man3"),      # twin of man3 without the log interface
     "plain3":   dict(N=3, L=1, cap=0, head=1, manual=0, pay=0, ctx=3, feat="", cfgorder=3),
@@ -32,7 +32,7 @@ PROFILES = {
     # wide machines: every property's monitors also at state counts where the halved state list is deep, ids need 7 / 8 bits,
     # the serial buffer grows to two bytes and the plan storage is large (the enumerated families use first / middle / last id)
     "wide64":   dict(N=64, L=2, cap=3, head=1, manual=0, pay=1, ctx=0, feat="PSHG", spread=1, nosim=1, cfgorder=3),
-    "wide128":  dict(N=128, L=3, cap=0, head=0, manual=1, pay=3, ctx=1, feat="PSHG", spread=1, nosim=1, cfgorder=2),
+    "wide128":  dict(N=128, L=3, cap=0, head=0, manual=1, pay=6, ctx=1, feat="PSHG", spread=1, nosim=1, cfgorder=2),
     "wide255":  dict(N=255, L=2, cap=4, head=1, manual=1, pay=0, ctx=0, feat="PSHGV", spread=1, nosim=1, dev=1),
     "wide17":   dict(N=17, L=2, cap=0, head=0, manual=0, pay=2, ctx=3, feat="PSHG", spread=1),
     "wide33":   dict(N=33, L=4, cap=5, head=1, manual=1, pay=4, ctx=2, feat="PSHGV", spread=1, nosim=1),
